@@ -75,6 +75,8 @@ theorem C09_deadline_put (s s1 : State) (id hash k v ttl : Nat) (w : Int) (o o' 
     · cases h
     · rename_i r hr
       split at h
+      · simp at h
+      split at h
       · cases hadd : addTime s.now ttl with
         | none => simp [hadd] at h
         | some x =>
@@ -100,6 +102,8 @@ theorem C09_deadline_put_none (s s1 : State) (id hash k v : Nat) (w : Int) (o o'
   · split at h
     · cases h
     · split at h
+      · simp at h
+      split at h
       · simp only [Except.ok.injEq, Prod.mk.injEq, Exec.done.injEq] at h
         obtain ⟨⟨hs1, _⟩, _⟩ := h
         subst hs1
